@@ -200,7 +200,7 @@ fn run_consumer<K: Kmer + Send + Sync + serde::Serialize + serde::de::Deserializ
             }
         };
         let is_next = matches!(op, Op::Next);
-        rec.choice(if is_next { "op_next" } else { "op_nth" }, skip as u64 * 2 + w as u64, false);
+        rec.choice(if is_next { "op_next" } else { "op_nth" }, (skip as u64).wrapping_mul(2).wrapping_add(w as u64), false);
         if !is_next {
             if skip > 4 {
                 rec.count("op_nth_jump_branch");
